@@ -839,3 +839,63 @@ Theorem passthrough_map_exact_fixed evs :
   hosts_distinct (spec_events evs []) ->
   hosts_exact (hosts (dk (run_events true evs world0))) (spec_events evs []).
 Proof. intros. apply passthrough_map_exact; auto. apply cleanup_no_downgrade. Qed.
+
+(* ---------- what is served after a restart is what the cluster holds ---------- *)
+
+Lemma aget_spec_adds_notin adds : forall s r,
+  ~ In r (map rid_of adds) -> aget r (spec_esteps (map EAdd adds) s) = aget r s.
+Proof.
+  induction adds as [|x t IH]; intros s r H; cbn; [reflexivity|].
+  rewrite IH by (intros Hin; apply H; cbn; auto).
+  apply aget_aset_neq. intros ->. apply H. cbn. auto.
+Qed.
+
+Lemma aget_spec_adds_in adds : forall s r i,
+  (forall a, In a adds -> rid_of a = r -> info_of a = i) ->
+  (exists a, In a adds /\ rid_of a = r) ->
+  aget r (spec_esteps (map EAdd adds) s) = Some i.
+Proof.
+  induction adds as [|x t IH]; intros s r i Hu (a & Ha & Hr); [destruct Ha|]. cbn [map spec_esteps fold_left spec_estep].
+  destruct (in_dec rid_dec r (map rid_of t)) as [Hin|Hnin].
+  - apply IH; [intros a' Ha'; apply Hu; cbn; auto|].
+    apply in_map_iff in Hin. destruct Hin as (a' & E & Ha'). exists a'. auto.
+  - fold (spec_esteps (map EAdd t) (aset (rid_of x) (info_of x) s)).
+    rewrite aget_spec_adds_notin by assumption.
+    destruct Ha as [->|Ha].
+    + subst r. rewrite aget_aset_eq. f_equal. apply Hu; cbn; auto.
+    + exfalso. apply Hnin. subst r. apply in_map. assumption.
+Qed.
+
+Lemma in_by_kind a c : In a (by_kind c) <-> In a c.
+Proof.
+  unfold by_kind. rewrite !in_app_iff, !filter_In. split.
+  - intros [H|[H|[H|H]]]; tauto.
+  - intros H. destruct a; cbn; tauto.
+Qed.
+
+Lemma NoDup_map_inj {A B} (f : A -> B) l a a' : NoDup (map f l) -> In a l -> In a' l -> f a = f a' -> a = a'.
+Proof.
+  induction l as [|x l IH]; intros Hn Ha Ha' E; [destruct Ha|]. cbn in Hn. inversion Hn as [|? ? Hx Hl]; subst.
+  destruct Ha as [->|Ha], Ha' as [->|Ha'].
+  - reflexivity.
+  - exfalso. apply Hx. rewrite E. apply in_map. assumption.
+  - exfalso. apply Hx. rewrite <- E. apply in_map. assumption.
+  - apply IH; assumption.
+Qed.
+
+(* a cluster holds at most one object per kind/namespace/name: then, whatever was served before,
+   after the restart exactly the objects of the cluster are served, each with its own content *)
+Theorem spec_restart_is_cluster c s :
+  NoDup (map rid_of c) ->
+  (forall a, In a c -> aget (rid_of a) (spec_event (Restart c) s) = Some (info_of a)) /\
+  (forall r, ~ In r (map rid_of c) -> aget r (spec_event (Restart c) s) = None).
+Proof.
+  intros Hn. cbn [spec_event]. rewrite restart_esteps_adds. split.
+  - intros a Ha. apply aget_spec_adds_in.
+    + intros a' Ha' E. apply in_app_or in Ha'. f_equal.
+      apply (NoDup_map_inj rid_of c); try assumption. destruct Ha' as [H|H]; [assumption|apply in_by_kind; assumption].
+    + exists a. split; [apply in_or_app; left; assumption|reflexivity].
+  - intros r Hr. rewrite aget_spec_adds_notin; [reflexivity|].
+    intros Hin. apply Hr. apply in_map_iff in Hin. destruct Hin as (a & E & Ha). subst r. apply in_map.
+    apply in_app_or in Ha. destruct Ha as [H|H]; [assumption|apply in_by_kind; assumption].
+Qed.
